@@ -1028,6 +1028,12 @@ class C16(Prop):
                 ops.append(mk([(7, (table[i % len(table)][0], table[i % len(table)][1])) for i in range(k)]) + " #many%d" % k)
                 if k < 390:       # a list of more than 390 entries is not constructible (DataVec capacity)
                     ops.append(mk([(7, (table[i % len(table)][0], table[i % len(table)][1])) for i in range(k)] + [(9, (table[0][0], table[0][1]))]) + " #many%d+1" % k)
+            # satellite identifiers just outside the mask (64 for 1059, 32 for 1065) and far outside: refused, never encoded
+            ms_ = 63 if num == 1059 else 31
+            for bad in (ms_ + 1, ms_ + 2, 64, 128, 255):
+                if bad > ms_:
+                    ops.append(mk([(1, (table[0][0], table[0][1])), (bad, (table[0][0], table[0][1])), (bad, (table[1][0], table[1][1]))]) + " #badsat%d" % bad)
+            ops.append(mk([(ms_, (table[0][0], table[0][1])), (0, (table[0][0], table[0][1]))]) + " #edgesat")
             for per, nsat in ((30, 13), (31, 12), (26, 15), (13, 30)):
                 for total in (389, 390):
                     ents = [(s, (table[i % len(table)][0], table[i % len(table)][1])) for s in range(nsat) for i in range(per)][:total]
@@ -1064,6 +1070,8 @@ class C16(Prop):
         num = msg[1]
         if res.startswith("PANIC"):
             return "encoding a bias list panicked"
+        if tag.startswith("badsat") and not res.startswith("ERR"):
+            return "a list with satellite %s (outside the satellite mask of %d) was not refused: %s" % (tag[6:], num, res[:30])
         if not res.startswith("OK "):
             return None
         if " D1 " not in res:
@@ -1885,6 +1893,13 @@ class C15(Prop):
             seq = [g.gen_msg(n, "valid", n=k) for k in (cap, 0, 1, cap // 2)]
             seq.append(seq[0])
             ops.append("BUILDSEQ " + " ".join(seq))
+        # hand-built 1007 frames (descriptor of n characters) with NUL bytes among the characters: the decoded string has n elements
+        if 1007 in g.layouts:
+            for n_, zeros in ((5, (2,)), (1, (0,)), (31, (0, 30)), (8, (3, 4, 5)), (31, tuple(range(31)))):
+                desc = bytes(0 if i in zeros else 65 + (i % 26) for i in range(n_))
+                b = set_bits(bytes(4 + n_ + 1), 0, 12, 1007)
+                b = set_bits(b, 24, 8, n_)
+                ops.append("DECODE %s #desc:%d:%s" % (hx(mkframe(b[:4] + desc + b"\x07")), n_, desc.hex()))
         # the free text of 1029 at its two capacities (255 bytes, 127 characters) and just below
         if 1029 in g.layouts:
             for cps, tg in (([0x4e65] * 85, "255b"), ([0x4e65] * 84 + [0xe9], "254b"), ([0xe9] * 126 + [0x20ac], "255b"), ([0x61] * 127, "127c"), ([0xe9] * 127, "254b"), ([0x1f600] * 63 + [0x4e65], "255b")):
@@ -1925,6 +1940,15 @@ class C15(Prop):
         g = get_gen(ctx)
         if res.startswith("PANIC"):
             return "%s panicked" % toks[0]
+        if toks[0] == "DECODE" and tag.startswith("desc:"):
+            _, n_s, dh = tag.split(":")
+            want = [164 if c == 0 else c for c in bytes.fromhex(dh)]
+            if not res.startswith("VMsg1007("):
+                return "a 1007 frame with a %s-character descriptor decoded to %s" % (n_s, res[:30])
+            got = vt.parse_msg(res.split(" ")[0])[2][1][1][1]
+            if got != want:
+                return "descriptor of %s characters on the wire came back with %d: %r.." % (n_s, len(got), got[:8])
+            return None
         if toks[0] == "DECODE":
             if tag.startswith("overcap"):
                 return None if res.startswith("VCorrupt") else "a frame whose count field exceeds the capacity (%s) decoded to %s" % (tag, res[:30])
